@@ -767,12 +767,15 @@ def pool_layout(prog, chk, rid):
             R = base_local(f, ev[0][1])
             inits = [f.r(init) for kind, _n, init in defs.get(R["id"], []) if init is not None] if R else []
             obj = f.r(ev[0][1]) if ev[0][1] is not None else ""
-            ok = any(re.search(r"\(.*Item \*\)&\w+ - 1\)$", s) for s in inits) and re.search(r"\(\w+ \+ 1\)", obj)
+            # the node comes from the element's address (one header back) or straight from an iterator parameter
+            pn_ = "|".join(re.escape(p_["n"]) for p_ in f.params) or "\0"
+            ok = bool(inits) and all(re.search(r"\(.*Item \*\)&\w+ - 1\)$", s) or re.fullmatch(r"(%s)\.item" % pn_, q.no_casts(s)) for s in inits) and \
+                re.search(r"\(\w+ \+ 1\)", obj)
             if ok:
-                chk.ok(rid, f, "node = (Item*)&value - 1, element = item + 1", "%s:%s" % (f.file, f.line), "both offsets are one header")
+                chk.ok(rid, f, "node = (Item*)&value - 1 or the iterator's node, element = item + 1", "%s:%s" % (f.file, f.line), "both offsets are one header")
             else:
                 chk.bad(rid, f, "pool-node-offset", "%s:%s" % (f.file, f.line),
-                        "PoolList::remove must compute the node as (Item*)&value - 1 and destroy the element at item + 1 (found %s / %s)" % (inits, obj))
+                        "PoolList::remove must take the node from an iterator or compute it as (Item*)&value - 1, and destroy the element at item + 1 (found %s / %s)" % (inits, obj))
         for f in methods(fs, "allocateFreeItem") + [g for g in fs if g.short in ("front", "back") or (g.cls or "").endswith("Iterator") and g.short in ("operator*", "operator->")]:
             rets = [i for i, n in enumerate(f.nodes) if n["k"] == "ReturnStmt" and n["c"]]
             for i in rets:
